@@ -56,10 +56,18 @@ pub fn build_universe(rng: &mut Rng, big: bool) -> Universe {
 	for g in groups {
 		fill(rng, &mut p);
 		match g {
-			0 => for i in 0..per + 2 {
+			0 => { for i in 0..per + 2 {
 				let name = match i { 0 => "[I".to_string(), 1 => "[Lp/C0;".to_string(), _ => format!("p/C{i}") };
 				let c = p.class(&name); by_kind[6].push(c);
-			},
+			}
+			// array classes at the dimension limit of JVMS 4.4.1 (255 is the last valid count; seed C01-b8: a parser counting
+			// the dimension before comparing it refused exactly these), as operands of new/anewarray/checkcast/instanceof/
+			// multianewarray, catch types and Object verification types
+			if rng.chance(1, 6) {
+				for name in [format!("{}I", "[".repeat(255)), format!("{}Lp/C0;", "[".repeat(255)), format!("{}J", "[".repeat(254))] {
+					let c = p.class(&name); by_kind[6].push(c);
+				}
+			} },
 			1 => for i in 0..per {
 				let c = p.class(&format!("p/F{i}")); let nt = p.nt(&format!("f{i}"), *rng.pick(&fdescs[..]));
 				let f = p.add(PE::Field(c, nt)); by_kind[1].push(f);
